@@ -551,7 +551,7 @@ pub fn spaces(tier: Tier) -> Vec<Box<dyn Space>> {
     if t {
         v.push(Box::new(Corpus { profile: Profile::Fast, files, double: true }));
     }
-    v.push(Box::new(Nesting { texts: crate::props::c08::syntactic_shape_texts(if t { &[4, 16, 64, 200, 256, 300, 1024, 4096] } else { &[4, 64, 128, 200, 230, 256, 1024] }) }));
+    v.push(Box::new(Nesting { texts: crate::props::c08::syntactic_shape_texts(if t { &[4, 16, 64, 200, 256, 300, 1024, 4096] } else { &[4, 64, 128, 200, 230, 256, 1024, 4096] }) }));
     let units = diagnostic_units();
     v.push(Box::new(Scale { profile: Profile::Poison, units: units.clone(), ks: if t { (0..=14).collect() } else { vec![0, 1, 6, 11] } }));
     v.push(Box::new(ReturnTypeCycles));
